@@ -162,14 +162,14 @@ CHECKS = {
  'jobs': [{'pkg': 'c13',
            'run': 'TestPlansMem',
            'race': True,
-           'checks': {'quick': 48, 'thorough': 3200},
+           'checks': {'quick': 32, 'thorough': 3200},
            'shards': {'quick': 16, 'thorough': 16},
            'timeout': {'quick': 600, 'thorough': 7200},
            'shrinktime': '60s'},
           {'pkg': 'c13',
            'run': 'TestPlansSock',
            'race': True,
-           'checks': {'quick': 16, 'thorough': 1600},
+           'checks': {'quick': 8, 'thorough': 1600},
            'shards': {'quick': 8, 'thorough': 16},
            'timeout': {'quick': 600, 'thorough': 7200},
            'shrinktime': '60s'}]},
